@@ -699,16 +699,16 @@ func (x *Exec) havocObj(st *State, o *Obj, fields map[int]bool) {
 
 func (x *Exec) loopEnv(st *State) *Env {
 	fr := st.top()
-	// locals first, then parameters: a parameter wins over a local of the same name;
+	// a local wins over a parameter of the same name; old(x) names the parameter's entry value;
 	// locals of pointer-to-struct type are also reachable as <name>_<Struct>
 	vars := map[string]Val{}
-	for k, v := range fr.vars {
-		vars[k] = v
-	}
 	for k, v := range fr.params {
 		vars[k] = v
 	}
-	return &Env{x: x, st: st, vars: vars, oldH: fr.oldHeaps, pkg: x.pkgOf(x.fn)}
+	for k, v := range fr.vars {
+		vars[k] = v
+	}
+	return &Env{x: x, st: st, vars: vars, oldH: fr.oldHeaps, pkg: x.pkgOf(x.fn), params: fr.params}
 }
 
 func (x *Exec) pkgOf(fn *ssa.Function) *types.Package {
